@@ -71,9 +71,9 @@ Print Assumptions C01_pressure.
 
 (* flat_line_test *)
 Theorem C01_flat :
-  forall (D : Z) (st ft tol : Q) (xs : list obs) (ts : list Z),
-         regular_ns (D * NS) ts ->
-         (1 <= D)%Z ->
+  forall (d : Z) (st ft tol : Q) (xs : list obs) (ts : list Z),
+         regular_ns d ts ->
+         (0 < d)%Z ->
          length ts = length xs ->
          0 <= st -> 0 <= ft -> total (flat_model st ft tol xs ts) (length xs).
 Proof. exact (@flat_total). Qed.
